@@ -493,8 +493,14 @@ func init() {
 	}
 	if raceMode {
 		spec.Workers = 1 // one case at a time so that a race report can be attributed
-	} else if os.Getenv("VERIF_C14_SKIP_RACE") == "" {
-		spec.Post = raceHalf
+	} else {
+		// one case at a time per process: the only concurrency in a lock-step
+		// process is the one the seeded scheduler controls (worker goroutines
+		// running other cases would be uncontrolled "other instances")
+		spec.Procs = true
+		if os.Getenv("VERIF_C14_SKIP_RACE") == "" {
+			spec.Post = raceHalf
+		}
 	}
 	sim.Register(spec)
 }
